@@ -291,14 +291,15 @@ fn plan(quick: bool) -> Vec<Part> {
         v.push(d(Part::new("C05", "R1+RT", 5, Space::singles(5, 7).plus(Space::thresholds(5, 6))), &[0, 2], &[0], 0, 0));
         v.push(d(Part::new("C05", "R1", 6, Space::singles(6, 7)), &[0], &[0], 0, 0));
     } else {
-        v.push(d(Part::new("C05", "R1+RT", 4, Space::singles(4, 9).plus(Space::thresholds(4, 8))), &[0, 1, 2, 3], &[0], 0, 1));
+        v.push(d(Part::new("C05", "R1+RT", 4, Space::singles(4, 9).plus(Space::thresholds(4, 8))), &[0, 1], &[0], 0, 0));
+        v.push(d(Part::new("C05", "R1+RT/budgets", 4, Space::singles(4, 8).plus(Space::thresholds(4, 7))), &[0, 3], &[0], 0, 1));
         v.push(d(Part::new("C05", "R1/full", 4, Space::singles(4, 7)), &[0, 1, 2, 3], &[0], 1, 2));
-        v.push(d(Part::new("C05", "R2", 4, Space::pairs(4, 5).plus(Space::with_rc(4, 8))), &[0, 3], &[0, 1], 0, 1));
+        v.push(d(Part::new("C05", "R2", 4, Space::pairs(4, 5).plus(Space::with_rc(4, 8))), &[3], &[0, 1], 0, 0));
         v.push(d(Part::new("C05", "R3", 4, Space::triples(4, 4)), &[0], &[1], 0, 0));
-        v.push(d(Part::new("C05", "R1+RT", 5, Space::singles(5, 9).plus(Space::thresholds(5, 8))), &[0, 1, 2, 3], &[0], 0, 1));
+        v.push(d(Part::new("C05", "R1+RT", 5, Space::singles(5, 9).plus(Space::thresholds(5, 8))), &[0, 2], &[0], 0, 0));
         v.push(d(Part::new("C05", "R1/full", 5, Space::singles(5, 7)), &[0, 1], &[0], 1, 2));
-        v.push(d(Part::new("C05", "R1", 6, Space::singles(6, 9)), &[0, 1, 2, 3], &[0], 0, 1));
-        v.push(d(Part::new("C05", "R1/full", 6, Space::singles(6, 8)), &[0, 1], &[0], 1, 1));
+        v.push(d(Part::new("C05", "R1", 6, Space::singles(6, 9)), &[0, 1], &[0], 0, 0));
+        v.push(d(Part::new("C05", "R1/full", 6, Space::singles(6, 8)), &[0], &[0], 1, 1));
     }
     for k in BIG_K {
         v.push(d(Part::new("C05", "catalogue", k, Space { segs: vec![catalogue(k)] }), if quick { &[1] } else { &[0, 1, 3] }, &[1], 0, 0));
